@@ -154,7 +154,7 @@ def run(repo: Repo, rep: Report, tier: str) -> None:
                                   "can emit parameters in different order", fn.loc(x))
     rep.count("R9.1:keyed_sorts_of_unordered", n_keyed)
     rep.count("R9.1:unordered_iteration_sites", n_iter)
-    rep.require(n_iter >= 12, f"R9.1: only {n_iter} iterations over unordered collections recognised (floor 12) - type inference lost the import collector?")
+    rep.require(n_iter >= 8, f"R9.1: only {n_iter} iterations over unordered collections recognised (floor 8) - type inference lost the import collector?")
     ic = repo.cls("context.import_collector:ImportCollector")
     kinds = st.attr_kinds(ic)
     for attr, want in (("imports", DICT_OF_SET), ("relative_imports", DICT_OF_SET), ("plain_imports", SET)):
